@@ -364,7 +364,9 @@ def rotate_pillow_image(pillow_image, orientation):
     elif orientation != 'none':
         angle, flip = orientation
         if angle > 0:
-            rotation = getattr(Image.Transpose, f'ROTATE_{angle}')
+            # Pillow rotates counter-clockwise, image-orientation clockwise.
+            rotation = getattr(
+                Image.Transpose, f'ROTATE_{(360 - angle) % 360}')
             pillow_image = pillow_image.transpose(rotation)
         if flip:
             pillow_image = pillow_image.transpose(
